@@ -932,9 +932,9 @@ def null_model_dir_sign(W, bin_swaps=5, wei_freq=.1, seed=None):
             Acur = An
             A_rcur = An_r
 
-        Si = np.sum(W * Acur, axis=0)  # positive in-strength
-        So = np.sum(W * Acur, axis=1)  # positive out-strength
-        Wv = np.sort(W[Acur].flat)  # sorted weights vector
+        Si = np.sum(s * W * Acur, axis=0)  # positive in-strength
+        So = np.sum(s * W * Acur, axis=1)  # positive out-strength
+        Wv = np.sort(s * W[Acur])  # sorted weights vector
         i, j = np.where(A_rcur)
         Lij, = np.where(A_rcur.flat)  # weights indices
 
